@@ -52,6 +52,21 @@ CHECKS = {
             "Generated-input search over overlap patterns (disjoint / identical / conflicting channels, observations, measurements, parameter configs, versions) crossed with all join modes; results are compared structurally against an independent join model and numerically through the likelihood of inputs and outputs.",
             "Trusted: the join model in props/c16.py written from the docstrings; likelihood relations checked at one generated point per case (1e-9 relative); factorisation checked for join='outer' (left/right outer are documented as unsafe).",
             "DESIGN.md#c16"),
+    "C06": ("exploration",
+            "Hypothesis-generated closed-form counting families and small well-posed models x data on both sides of the tested hypothesis x 5 statistics x POI lower bound x optimizer; oracles: definition re-evaluated with the reference NLL at the returned fitted parameters (one-sided rules on the returned POI), closed-form profile likelihood, exact conditional POI",
+            "Generated-input search that steers the fitted POI above / below / at the tested value and onto the lower bound, so that every zeroing branch and the clip at zero are taken with a value check.",
+            "Trusted: vlib/refmodel.py NLL, vlib/refstats.py closed forms; closed-form tolerance 1e-3 + 1e-5 q (4e-3 for minuit); near the zeroing seam either branch is accepted.",
+            "DESIGN.md#c06"),
+    "C07": ("exploration",
+            "Hypothesis-generated (q, q_A) incl. the seam q=q_A and its float neighbours, injected by test-time patching of two internal functions, driven through the real calculator code; oracle: 50-digit mpmath formulae of arXiv:1007.1727, ordering invariants, clipped-vs-unclipped identity",
+            "Generated-input search over the (q, q_A) plane for 3 statistics x 2 base distributions x 4 backends with an exact-arithmetic oracle and rounding-aware tolerances.",
+            "Trusted: mpmath; injection relies on pyhf.infer.utils.get_test_stat and pyhf.infer.calculators.generate_asimov_data (missing name = harness error, exit 2).",
+            "DESIGN.md#c07"),
+    "C08": ("exploration",
+            "Hypothesis-generated closed-form counting families x observed counts x tested mu x statistic x backend/optimizer with all 16 return-flag combinations enumerated per case; oracle: closed-form q and q_A through the exact asymptotic formulae with a +-delta sensitivity envelope, documented tuple layout, closed-form Asimov data, refusal cases",
+            "Generated-input search with an analytic end-to-end oracle for CLs / p0 (observed and 5-point band) and exhaustive enumeration of the 16 flag combinations in every asymptotic case.",
+            "Trusted: vlib/refstats.py; fits are run at tight optimiser tolerance (SLSQP ftol 1e-10, MIGRAD tol 1e-4) so that the envelope (delta 1e-4 / 1e-3 on 2NLL) detects wiring errors rather than optimiser noise; toy-based calls are checked for layout only.",
+            "DESIGN.md#c08"),
 }
 
 NOT_YET = "check not built yet in this session (work in progress; the design in DESIGN.md section 5 applies)"
